@@ -76,7 +76,18 @@ let eval_extra = function
        Some (show_view v r ^ " " ^ str_ints (put (c @ List.init (n - k) (fun _ -> 0)))))
   | _ -> None
 
+(* ---- zero-size elements, lengths beyond 2^62 (known finding F13): length-only models ---- *)
+let fuel64 = nat_of_int 64
+let eval_zero_size w = function
+  | ["E"; "R"; len; k] -> Some (show_res (fun () -> "ok") (M.rotatez w fuel64 (z_of_string len) (z_of_string k)))
+  | ["E"; "C"; len; n] ->
+    let len = z_of_string len in
+    Some (show_res (fun cs -> if cs = [] then "." else String.concat "," (List.map (fun c -> string_of_z c.M.vlen ^ ":" ^ string_of_z c.M.vcap) cs))
+            (M.chunksz w fuel64 { M.voff = z 0; M.vlen = len; M.vcap = len } (z_of_string n)))
+  | _ -> None
+
 let eval inp =
+  match eval_zero_size M.w64 (words inp) with Some s -> s | None ->
   match eval_extra (words inp) with Some s -> s | None ->
   match words inp with
   | ["S"; i; ls] ->
@@ -180,9 +191,38 @@ let spec_extra inp out =
     None
   with Bad s -> Some s
 
+(* Rotate / Chunks of zero-size elements: the property (no panic on a documented argument; the
+   documented chunk lengths).  A failure is the known finding F13 only if the slice has more than
+   2^62 elements, the 64-bit wrap-around model reproduces the implementation's output on this very
+   input, and the unbounded model does not fail on it (Chunks: it yields exactly the documented
+   chunks; Rotate: no panic -- it is linear in len, so "still running after 64 steps" is all that
+   can be evaluated; C17_rotate proves it never panics). *)
+let spec_zero_size inp out =
+  match words inp with
+  | ["E"; fn; len; arg] ->
+    let zlen = z_of_string len in
+    let small x = String.length x < 18 in
+    let documented = match fn with
+      | "R" -> true          (* the corpus lines keep -len <= k <= len; checked below through the unbounded model *)
+      | _ -> String.length arg > 0 && arg.[0] <> '-' in
+    let unbounded = match eval_zero_size M.wid (words inp) with Some s -> s | None -> "?" in
+    let failure =
+      if not documented then None
+      else if is_panic out || out = "hang-skipped" then Some (Printf.sprintf "%s on a documented argument of a slice of %s zero-size elements" out len)
+      else if fn = "C" && out <> "hang" && out <> unbounded && unbounded <> "FUEL" then Some ("Chunks: expected " ^ unbounded)
+      else None in
+    (match failure with
+     | None -> None
+     | Some r ->
+       let unbounded_ok = (fn = "R" && (unbounded = "ok" || unbounded = "FUEL")) || (fn = "C" && not (is_panic unbounded) && unbounded <> "FUEL") in
+       let known = M.above62 zlen && not (small len) && eval inp = out && unbounded_ok in
+       Some (if known then r ^ " known=F13" else r))
+  | _ -> None
+
 let spec prop inp out =
   if prop = "C17x" then spec_extra inp out else
   if prop <> "C17" then None else
+  match words inp with "E" :: _ -> spec_zero_size inp out | _ ->
   try
     (match words inp with
      | ["S"; i; ls] ->
